@@ -30,7 +30,7 @@
 //!              default, or null) of some textual occurrence of that edge in the query; every `Some`
 //!              active vertex flowing into the call has a concrete type in instances_of(type).
 //!              Plus fixed parameter-completion probes and a probe schema with sibling interfaces.
-//!      tie:    TYPED / CONTRACT verdicts of the model, the set of calls made while the pipeline is
+//!      tie:    CONFORMS (the dataset meets the hypothesis of the dynamic theorem), TYPED / CONTRACT verdicts of the model, the set of calls made while the pipeline is
 //!              built vs `static_calls_of_query`, and observed calls ⊆ `calls_of_query`
 //!              (`Calls.run_c21`); for fold-free queries STATIC = OBSERVED, i.e. set equality.
 #[path = "../coq.rs"]
@@ -154,6 +154,10 @@ struct CountingAdapter {
     c: Rc<Counters>,
 }
 
+/// self-test of the oracle (`--selftest-eager`, never used by ./check): put a `collect()` between the
+/// counted source and the engine, as an eager pipeline stage would; the oracle must then fail.
+static SELFTEST_EAGER: std::sync::atomic::AtomicBool = std::sync::atomic::AtomicBool::new(false);
+
 impl CountingAdapter {
     fn new(d: Dataset) -> Self {
         CountingAdapter { inner: GraphAdapter::new(d), c: Rc::new(Counters::default()) }
@@ -171,7 +175,7 @@ impl Adapter<'static> for CountingAdapter {
     ) -> VertexIterator<'static, Self::Vertex> {
         let c = self.c.clone();
         let mut it = self.inner.starts(edge_name, parameters).into_iter();
-        Box::new(std::iter::from_fn(move || match it.next() {
+        let counted = std::iter::from_fn(move || match it.next() {
             Some(v) => {
                 bump(&c.starts);
                 Some(v)
@@ -180,7 +184,18 @@ impl Adapter<'static> for CountingAdapter {
                 c.starts_done.set(true);
                 None
             }
-        }))
+        });
+        if SELFTEST_EAGER.load(std::sync::atomic::Ordering::Relaxed) {
+            let mut counted = Some(counted);
+            let mut buffered: Option<std::vec::IntoIter<u64>> = None;
+            return Box::new(std::iter::from_fn(move || {
+                if buffered.is_none() {
+                    buffered = Some(counted.take().unwrap().collect::<Vec<_>>().into_iter());
+                }
+                buffered.as_mut().unwrap().next()
+            }));
+        }
+        Box::new(counted)
     }
 
     fn resolve_property<V: AsVertex<Self::Vertex> + 'static>(
@@ -1012,7 +1027,10 @@ type B implements D {
 }
 ";
 
-fn sibling_probe(out: &mut Out) {
+/// the sibling schema as a Calls.v `schema`
+const SIBLING_SCHEMA_COQ: &str = "(mkSchema [\"X\"; \"D\"; \"A\"; \"B\"] [(\"X\", [\"X\"; \"A\"]); (\"D\", [\"D\"; \"A\"; \"B\"]); (\"A\", [\"A\"]); (\"B\", [\"B\"])] [(\"X\", [(\"xid\", (mkTy \"Int\" 1%N))]); (\"D\", [(\"did\", (mkTy \"Int\" 1%N))]); (\"A\", [(\"xid\", (mkTy \"Int\" 1%N)); (\"did\", (mkTy \"Int\" 1%N))]); (\"B\", [(\"did\", (mkTy \"Int\" 1%N))])] [(\"X\", [(mkED \"e\" \"D\" [])]); (\"D\", []); (\"A\", [(mkED \"e\" \"D\" [])]); (\"B\", [])] [(mkED \"A\" \"A\" [])])";
+
+fn sibling_probe(out: &mut Out, oracle_only: bool) {
     out.count("probe:sibling-interfaces");
     let text = format!("schema {{\n  query: RootSchemaQuery\n}}\n{}\n{}", Schema::ALL_DIRECTIVE_DEFINITIONS, SIBLING_SCHEMA_BODY);
     let schema = match catch_unwind(AssertUnwindSafe(|| Schema::parse(&text))) {
@@ -1038,12 +1056,25 @@ fn sibling_probe(out: &mut Out) {
     };
     let calls = Rc::new(RefCell::new(vec![]));
     let ad = Arc::new(NullLogAdapter { calls: calls.clone() });
+    let ir_coq = irprint::query(&indexed.ir_query);
     let r = catch_unwind(AssertUnwindSafe(|| match interpret_ir(ad, indexed, Arc::new(BTreeMap::new())) {
         Ok(it) => it.count(),
         Err(_) => 0,
     }));
     let seen: Vec<String> = calls.borrow().iter().map(|c| c.render()).collect();
     out.extra.insert("sibling_probe".into(), json!({"query": query, "calls": seen, "panicked": r.is_err()}));
+    if !oracle_only && r.is_ok() {
+        // the model reproduces the offending call and says the query is NOT typed against the schema
+        let items: Vec<String> = calls.borrow().iter().map(|c| c.coq()).collect();
+        let set = call_set(&calls.borrow());
+        out.add(Case {
+            input: json!({"schema": SIBLING_SCHEMA_BODY, "query": query}),
+            coq: format!("run_c21 {} {} {}", SIBLING_SCHEMA_COQ, ir_coq, clist(&items)),
+            imp: format!("TYPED:F|CONTRACT:F|STATIC:{set}|OBSERVED:{set}"),
+            nontrivial: true,
+            key: "sibling-probe".to_string(),
+        });
+    }
     let subtypes = |t: &str| -> Vec<&'static str> {
         match t {
             "X" => vec!["X", "A"],
@@ -1070,7 +1101,7 @@ fn run_c21(seed: u64, n: usize, oracle_only: bool, out: &mut Out) {
     let schema = world::schema();
     let mut stats = new_stats();
     fixed_probes(&schema, out);
-    sibling_probe(out);
+    sibling_probe(out, oracle_only);
     for i in 0..n {
         let c = gen_case(&mut rng, &schema, &mut stats, 0);
         for f in &c.features {
@@ -1112,10 +1143,10 @@ fn run_c21(seed: u64, n: usize, oracle_only: bool, out: &mut Out) {
                     items.push(r.coq());
                 }
             }
-            let imp = format!("TYPED:T|CONTRACT:T|STATIC:{}|OBSERVED:{}", call_set(&obs.static_calls), call_set(&obs.all_calls));
+            let imp = format!("CONFORMS:T|TYPED:T|CONTRACT:T|STATIC:{}|OBSERVED:{}", call_set(&obs.static_calls), call_set(&obs.all_calls));
             out.add(Case {
                 input,
-                coq: format!("run_c21 ws {} {}", irprint::query(&c.indexed.ir_query), clist(&items)),
+                coq: format!("run_c21d ws {} {} {}", c.dataset.to_coq(), irprint::query(&c.indexed.ir_query), clist(&items)),
                 imp,
                 nontrivial: seen.len() >= 4,
                 key: format!("{i}:{}", c.query_text),
@@ -1138,6 +1169,9 @@ fn main() {
     let oracle_only = args.rest.iter().any(|x| x == "--oracle-only");
     match argv[1].as_str() {
         "c03" => {
+            if args.rest.iter().any(|x| x == "--selftest-eager") {
+                SELFTEST_EAGER.store(true, std::sync::atomic::Ordering::Relaxed);
+            }
             let mut o = Out::new(&args.out, "From TF Require Import Lazy.", 40);
             run_c03(args.seed, args.n, oracle_only, &mut o);
             o.finish();
